@@ -674,6 +674,30 @@ def do_compute(m: Machine, step):
         L.sst_rotation_from_matrix(np.asarray(ps)[:, :3, :3])
         L.sst_rotation_from_matrix(ps[i][:3, :3])
         m.probe_hit("compute_lie")
+    elif what == "mutator_args":
+        # the matrix / reference handed to a mutator is an argument like any
+        # other: applied to a throw-away copy of the object (a Sim(3) matrix
+        # would leave the pool's own object outside the model's domain), the
+        # caller's arrays must come back bit for bit
+        c = copy.deepcopy(a.obj)
+        Tm, _, _ = se3_from(step["T"])
+        L = evo.lie
+        for mat in (np.array(Tm), L.sim3(Tm[:3, :3].copy(), Tm[:3, 3].copy(),
+                                        step.get("s", 2.0))):
+            mat = np.ascontiguousarray(mat, dtype=float)
+            keep = mat.copy()
+            cc = copy.deepcopy(c)
+            if step.get("read_first"):
+                cc.poses_se3
+            cc.transform(mat, right_mul=bool(step.get("right")),
+                         propagate=bool(step.get("right")
+                                        and step.get("propagate")))
+            if mat.tobytes() != keep.tobytes():
+                raise Violation("C16", "argument-changed", op="compute",
+                                fn="transform (the caller's matrix)",
+                                sim3=bool(abs(np.linalg.det(keep[:3, :3]) - 1)
+                                          > 1e-9))
+        m.probe_hit("compute_mutator_args")
     elif what == "helpers":
         # conversion helpers fed with the LIVE arrays / matrices of an object
         T = evo.trajectory
@@ -1311,7 +1335,8 @@ def gen_step(m: Machine, rng, uid):
                        "filter_by_motion", "matching_time_indices", "umeyama",
                        "umeyama", "write_tum", "write_kitti", "to_df",
                        "merge_results", "result_io", "ape", "rpe", "lie",
-                       "geometry", "filter_pairs", "helpers"] +
+                       "geometry", "filter_pairs", "helpers",
+                       "mutator_args"] +
                       (["plot"] if rng.random() < 0.15 else []) +
                       (["plot_result"] if rng.random() < 0.08 else []))
     st = {"op": "compute", "uid": uid, "what": what, "a": e.uid}
@@ -1341,6 +1366,12 @@ def gen_step(m: Machine, rng, uid):
                                      "bags/run_01/", "/odom", "C:\\d\\e\\",
                                      "est 2", ""])
         st["ref_name"] = rng.choice(["reference", "gt/ref.txt", "/gt"])
+    elif what == "mutator_args":
+        st["T"] = gen_T(rng, scale)
+        st["s"] = rng.choice([2.0, 0.5, 1.000001, 10.0])
+        st["right"] = rng.random() < 0.4
+        st["propagate"] = rng.random() < 0.3
+        st["read_first"] = rng.random() < 0.5
     elif what in ("lie", "helpers"):
         st["i"], st["j"] = rng.randrange(64), rng.randrange(64)
         if same:
